@@ -199,6 +199,11 @@ def _fs_instance(rng, terminals_as_modules, density):
     # blocks: rectangles and L / T shapes given by their vertices (closed lists, padded with -1)
     shapes = [[(0, 0), (4, 0), (4, 3), (0, 3)], [(5, 0), (9, 0), (9, 2), (7, 2), (7, 4), (5, 4)], [(0, 5), (3, 5), (3, 6), (2, 6), (2, 8), (1, 8), (1, 6), (0, 6)],
               [(6, 6), (10, 6), (10, 10), (6, 10)]]
+    if rng.random() < 0.5:
+        # one-decimal coordinates (not representable in binary): facing sides of the decomposed rectangles differ by rounding noise
+        f = rng.choice([0.1, 0.3, 0.7])
+        shapes = [[(round(x * f + 0.1, 10), round(y * f + 0.2, 10)) for (x, y) in sh] for sh in shapes]
+        W = round(12.0 * f + 0.4, 10)
     k = rng.randint(2, 4)
     maxv = 10
     vb = -np.ones((k, maxv, 2))
@@ -212,7 +217,7 @@ def _fs_instance(rng, terminals_as_modules, density):
         c = rng.choice(["soft", "soft", "hard", "fixed"])
         cons[i, 0] = 1 if c == "hard" else 0
         cons[i, 1] = 1 if c == "fixed" else 0
-    pins = np.array([[0.0, 2.0], [W, 5.0], [3.0, 0.0], [6.0, W], [4.0, 7.0]][:rng.randint(2, 5)])
+    pins = np.array([[0.0, W / 6], [W, W / 2.4], [W / 4, 0.0], [W / 2, W], [W / 3, W / 1.7]][:rng.randint(2, 5)])
     b2b = np.array([[0, 1, rng.choice([1, 2, 0.5])]] + ([[1, k - 1, 3]] if k > 2 else []), dtype=float)
     p2b = np.array([[i, rng.randrange(k), rng.choice([1, 2])] for i in range(len(pins))], dtype=float)
     data = dict(area_blocks=areas, b2b_connectivity=b2b, p2b_connectivity=p2b, pins_pos=pins, placement_constraints=cons, vertex_blocks=vb,
@@ -376,6 +381,13 @@ def floorset_documents(replay=None):
             ok = ok and abs(sum(r.area for r in m.rectangles) - desc["areas"][i]) < 1e-9 and abs(m.area() - desc["areas"][i]) < 1e-9
         nets = [(e.modules, e.weight) for e in inst.nets]
         got = [([m.name for m in e.modules], e.weight) for e in n.edges]
+        # counts from the instance DESCRIPTION, not from the converter's own state (added after seed C19-10: class-level containers shared by
+        # every instance of a process made later documents carry the modules and nets of earlier ones)
+        blocks = [m.name for m in n.modules if m.name.startswith("M")]
+        if sorted(blocks) != sorted(f"M{i}" for i in range(desc["k"])) or len(n.modules) > desc["k"] + desc["pins"]:
+            ok = False          # exactly the blocks of this instance, at most one more module per pin
+        if len(got) > len(desc["b2b"]) + len(desc["p2b"]) or len(got) < len(desc["b2b"]):
+            ok = False          # one net per block-to-block connection, at most one more per pin connection
         if not ok or got != nets or (die.width, die.height) != inst.shape:
             failures.append(dict(clause="reloaded_design_is_the_converted_one", terminals_as_modules=tam, nets=nets[:2], got=got[:2]))
         if len(samples) < 1:
@@ -477,7 +489,10 @@ def stage_outputs_and_text_layer(replay=None):
         except Exception as e:  # noqa
             failures.append(dict(clause="die.text_document_accepted", step=step, observed=f"{type(e).__name__}: {e}"))
         al = amod.create_initial_allocation(d)
-        for al2 in (al, al.refine(0.9, 1), al.refine(0.9, 1).uniform_refinement_depth().griddify()):
+        # an allocation in which every cell is still empty (the grid before the initial allocation) is a document without a single
+        # mapping entry: it used to be taken for a file name by the reader (repaired in /repo; kept as a regression case)
+        empty = Allocation([[list(x.rect.vector_spec), {}] for x in al.allocations if not x.rect.fixed])
+        for al2 in (al, al.refine(0.9, 1), al.refine(0.9, 1).uniform_refinement_depth().griddify(), empty):
             evals += 1
             st = deep_state(al2)
             y1, y2 = al2.write_yaml(), al2.write_yaml()
